@@ -174,6 +174,46 @@ out:
     if (ok) printf("ok live=%ld", live_blocks());
 }
 
+
+/* ---- `inv`: every documented-invalid call (and the calls with the optional out-pointer left
+ * NULL, and a resize to the current capacity) on the current state, `name=result:errno` per call;
+ * nothing may change. Not a windowed call (an armed failure stays armed and cannot fire here). */
+static const char *ename(int e) { return e == EIO ? "EIO" : errname(e); }
+static void iv_bool(const char *name, bool r) { int e = errno; printf(" %s=%s:%s", name, r ? "true" : "false", ename(e)); }
+static void iv_data(const char *name, void *d, size_t n, bool own) {
+    int e = errno;
+    printf(" %s=", name);
+    if (d == NULL) printf("null"); else { printf("data"); puthex(stdout, d, n); }
+    printf(":%s", ename(e));
+    if (d != NULL && own) vf_free(d);
+}
+#define IVB(name, call) do { errno = 0; bool r_ = (call); iv_bool(name, r_); } while (0)
+
+static void inv_vector(void) {
+    unsigned char *x = calloc(1, OS ? OS : 1);      /* exactly objsize bytes */
+    int n = (int) V->num;
+    printf("inv");
+    IVB("addnull", qvector_addat(V, 0, NULL));
+    IVB("addfirstnull", qvector_addfirst(V, NULL));
+    IVB("addlastnull", qvector_addlast(V, NULL));
+    IVB("addabove", qvector_addat(V, n + 1, x));
+    IVB("addbelow", qvector_addat(V, -n - 1, x));
+    errno = 0; { void *d = qvector_getat(V, n, true); iv_data("getabove", d, V->objsize, true); }
+    errno = 0; { void *d = qvector_getat(V, -n - 1, false); iv_data("getbelow", d, V->objsize, false); }
+    IVB("setabove", qvector_setat(V, n, x));
+    IVB("setbelow", qvector_setat(V, -n - 1, x));
+    errno = 0; { void *d = qvector_popat(V, n); iv_data("popabove", d, V->objsize, true); }
+    errno = 0; { void *d = qvector_popat(V, -n - 1); iv_data("popbelow", d, V->objsize, true); }
+    IVB("removeabove", qvector_removeat(V, n));
+    IVB("removebelow", qvector_removeat(V, -n - 1));
+    IVB("nextnull0", qvector_getnext(V, NULL, false));
+    IVB("nextnull1", qvector_getnext(V, NULL, true));
+    IVB("debugnull", qvector_debug(V, NULL));
+    errno = 0; { size_t ts = V->num * V->objsize; void *d = qvector_toarray(V, NULL); iv_data("toarraynosize", d, ts, true); }
+    IVB("resizesame", qvector_resize(V, V->max));
+    free(x);
+}
+
 static int do_op(int nw, char **w) {
     const char *op = w[0];
     bytes_t a = {0, 0};
@@ -246,6 +286,8 @@ static int do_op(int nw, char **w) {
             if (guard-- == 0) { printf(" ENDLESS"); break; }
         }
         printf(" end %s", errname(errno));
+    } else if (!strcmp(op, "inv") && nw == 1) {
+        inv_vector();
     } else if (!strcmp(op, "reset") && nw == 1) {
         memset(&cur, 0, sizeof(cur)); printf("ok");
     } else if (!strcmp(op, "next") && nw == 2) {
